@@ -289,4 +289,13 @@ def r09_6(ctx):
            "the in-place decoder advances past the look-ahead on a path that then emits the lossy replacement")
 
 
-RULES = [("R09.1", r09_1), ("R09.2", r09_2), ("R09.3", r09_3), ("R09.4", r09_4), ("R09.5", r09_5), ("R09.6", r09_6)]
+def r09_7(ctx):
+    """shape of the surrogate-pair assembly (shared with C03: R03.5)"""
+    from .c03 import r03_5
+    r03_5(ctx)
+    for o in ctx.obligations:
+        if o["rule"] == "R03.5":
+            o["rule"] = "R09.7"
+
+
+RULES = [("R09.1", r09_1), ("R09.2", r09_2), ("R09.3", r09_3), ("R09.4", r09_4), ("R09.5", r09_5), ("R09.6", r09_6), ("R09.7", r09_7)]
